@@ -113,11 +113,14 @@ impl InnerWalWriter {
             "Appending entry to WAL"
         );
         if let Some(file) = self.file.as_mut() {
-            let json = serde_json::to_string(entry)?;
-            debug!(target: "inner_wal_writer::append_immediate", json = %json, "Serialized WAL entry");
+            let mut line = serde_json::to_string(entry)?;
+            debug!(target: "inner_wal_writer::append_immediate", json = %line, "Serialized WAL entry");
 
-            file.write_all(json.as_bytes())?;
-            file.write_all(b"\n")?;
+            // One write per entry: written as two pieces, a buffer boundary (or a kill) between
+            // the JSON and its newline leaves an unterminated line on disk, and the next
+            // lifetime appends its first entry to it - both entries are then unreadable.
+            line.push('\n');
+            file.write_all(line.as_bytes())?;
 
             if CONFIG.wal.flush_each_write {
                 file.flush()?;
